@@ -89,4 +89,41 @@ def PbkdfHasher.needsUpdate (h : PbkdfHasher) (hs : Str) : Res Bool :=
   | .ok none => .ok true
   | .ok (some info) => .ok (info.rounds != some (h.rounds : Int))
 
+/-! ### bcrypt-sha256 (PHC record `$bcrypt-sha256$v=2,t=2b,r=12$salt$digest`)
+
+`libpass/hashers/bcrypt.py::BcryptSHA256Hasher`: identify / verify / needs_update read the record through `inspect_phc`
+(`Model.Formats.lpPhcParse bcryptSha256Phc`, tied to the real inspector under C07) and accept only the version the hasher
+implements (`info.version_ != 2` ⇒ foreign).  `bcrypt.checkpw` over the HMAC-SHA256 pre-hash is a parameter. -/
+structure BcSha256Hasher where
+  rounds : Nat
+  /-- `bcrypt.checkpw(prepare(secret, salt), "$<type>$<rounds>$<salt><hash>")` -/
+  check : (type salt hash rounds : Str) → Bytes → Bool
+
+def phcField (p : Parsed) (k : String) : Option Str := (p.extra.find? (·.1 = k)).map (·.2)
+
+def BcSha256Hasher.inspect (_h : BcSha256Hasher) (s : Str) : Res (Option Parsed) := lpPhcParse bcryptSha256Phc s
+
+/-- `info.version_ == 2` (integers are kept as their `str()` rendering by the inspector model) -/
+def ownVersion (info : Parsed) : Bool := phcField info "version_" == some (ofString "2")
+
+def BcSha256Hasher.identify (h : BcSha256Hasher) (s : Str) : Res Bool :=
+  match h.inspect s with
+  | .error e => .error e
+  | .ok none => .ok false
+  | .ok (some info) => .ok (ownVersion info)
+
+def BcSha256Hasher.verify (h : BcSha256Hasher) (s : Str) (secret : Bytes) : Res Bool :=
+  match h.inspect s with
+  | .error e => .error e
+  | .ok none => .ok false
+  | .ok (some info) =>
+    if !ownVersion info then .ok false
+    else .ok (h.check ((phcField info "type").getD []) (info.salt.getD []) (info.checksum.getD []) ((phcField info "rounds").getD []) secret)
+
+def BcSha256Hasher.needsUpdate (h : BcSha256Hasher) (s : Str) : Res Bool :=
+  match h.inspect s with
+  | .error e => .error e
+  | .ok none => .ok true
+  | .ok (some info) => if !ownVersion info then .ok true else .ok (phcField info "rounds" != some (fmtDec (h.rounds : Int)))
+
 end Model.Libpass
